@@ -257,7 +257,7 @@ func runWorkers(bin string, ck *Check, tier, replay, dir string, n int, deadline
 				err = fmt.Errorf("watchdog: worker killed after deadline+10min")
 				<-done
 			}
-			r := workerResult{log: tail(buf.String(), 6000)}
+			r := workerResult{log: headTail(buf.String(), 3000)}
 			if b, e := os.ReadFile(infl); e == nil {
 				r.infl = string(b)
 			}
@@ -279,6 +279,13 @@ func runWorkers(bin string, ck *Check, tier, replay, dir string, n int, deadline
 	}
 	wg.Wait()
 	return res
+}
+
+func headTail(s string, n int) string {
+	if len(s) <= 2*n {
+		return s
+	}
+	return s[:n] + "\n…\n" + s[len(s)-n:]
 }
 
 func tail(s string, n int) string {
